@@ -419,6 +419,19 @@ impl ZoneHarness {
                 }
                 Value::Null
             }
+            "U_Finished" => {
+                // ZoneUpdate::Finished(soa): update_soa + commit + close, one call;
+                // the model sees it as U_Soa, CommitUpdateCurrent, CommitPushVersion, DropWriter
+                if let Some(Session::U { mut up }) = self.writers.remove(&w) {
+                    if let Err(e) = self.rt.block_on(up.apply(ZoneUpdate::Finished(soa_rec(op["x"].as_u64().unwrap_or(0))))) {
+                        return json!({"update_error": format!("{:?}", e)});
+                    }
+                    if !up.is_finished() {
+                        return json!({"update_error": "not finished"});
+                    }
+                }
+                Value::Null
+            }
             "ReaderAcquire" => {
                 let rd = self.zone().read();
                 self.readers.insert(r, rd);
